@@ -37,6 +37,8 @@ def case_hostile(seed, out, spec, wd, idx):
     placement = r.pick(['local', 'local', 'in_list', 'in_dict', 'attr', 'dict_key_val', 'watch', 'capture_return',
                         'capture_raise', 'two'])
     names = ['first', 'second', 'third', 'fourth', 'fifth'][:r.randrange(1, 6)]
+    if r.chance(0.25):
+        names[r.randrange(len(names))] = 'self'   # a local called self need not be a well-behaved instance
     gg = graphs.GraphGen(r, hostile_p=0.0, max_depth=2, width=3)
     values = [gg.value() for _ in names]
     pos = r.randrange(len(names))
